@@ -292,6 +292,7 @@ const (
 	opRepFail1    // second call failing
 	opRepTopicT   // replay k=3 with topics {"t"} only
 	opRepHuge     // numerals around 2^63 / 2^64 (never issued)
+	opRepNoTopics // replay k=2 by a subscription without topics (a direct user of the replayer; the Server never does)
 	numAbstractOps
 )
 
@@ -387,6 +388,9 @@ func (g *histGen) replay(kind int) (idopt val.V, topics []string, script val.V) 
 	case opRepTopicT:
 		idopt = g.recent(3)
 		topics = []string{"t"}
+	case opRepNoTopics:
+		idopt = g.recent(2)
+		topics = nil
 	case opRepHuge:
 		idopt = val.L(val.S([]string{"18446744073709551615", "9223372036854775808", "18446744073709551616", "9223372036854775807"}[len(g.issued)%4]))
 	}
@@ -469,6 +473,16 @@ func genFiniteCapacities(c *Ctx) {
 
 func genFinite(c *Ctx) {
 	genFiniteCapacities(c)
+	// directed: subscriptions without topics resuming from every age
+	for _, auto := range []bool{false, true} {
+		g := &histGen{auto: auto}
+		ops := []val.V{}
+		for i := 0; i < 5; i++ {
+			ops = append(ops, finiteOp(g, []int{opPut0, opPut2, opPut0, opPut1, opPut0}[i], nil), finiteOp(g, opRepNoTopics, nil))
+		}
+		c.Count("directed:subscription-without-topics")
+		c.Emit(val.L(val.Int(4), val.Bool(auto), val.List(ops)))
+	}
 	// capacities below the minimum are rejected
 	for _, n := range []int{0, 1} {
 		c.Emit(val.L(val.Int(n), val.Bool(true), val.L()))
@@ -586,6 +600,16 @@ func genValid(c *Ctx) {
 				}
 			}
 		}
+	}
+	// directed: subscriptions without topics resuming from every age
+	for _, auto := range []bool{false, true} {
+		g := &histGen{auto: auto}
+		vops := []val.V{}
+		for i := 0; i < 5; i++ {
+			vops = append(vops, validOp(g, []int{opPut0, opPut2, opPut0, opPut1, opPut0}[i], int64(i), nil), validOp(g, opRepNoTopics, int64(i), nil))
+		}
+		c.Count("directed:subscription-without-topics")
+		c.Emit(val.L(val.Z(ttl), val.Bool(auto), val.L(), val.List(vops)))
 	}
 	// directed: "keep (almost) forever" TTLs - close to the largest Duration, 250 years
 	for _, auto := range []bool{false, true} {
